@@ -152,4 +152,210 @@ theorem memmove_spec (m : Mem) (dst src : Nat) (data : List Byte)
   obtain ⟨m', e, h⟩ := memmove_done m dst src data.length hs.mapped hd
   exact ⟨m', e, h.holds hs, h.2⟩
 
+
+/-! ### strlen / strnlen -/
+
+/-- strlen returns the index of the terminator and reads `[s, s+len]` only -/
+theorem strlen_spec (m : Mem) (s : Nat) (l : List Byte) (fuel : Nat) (h : CStr m s l)
+    (hf : l.length < fuel) : strlen m s fuel = some l.length :=
+  strlen_eq m l s fuel h hf
+
+/-- strnlen on a string: `min(len, maxlen)` -/
+theorem strnlen_spec (m : Mem) (s : Nat) (l : List Byte) (maxlen : Nat) (h : CStr m s l) :
+    strnlen m s maxlen = some (min l.length maxlen) := by
+  simpa [strnlen] using strnlenLoop_cstr m l s maxlen 0 h
+
+/-- strnlen never examines more than `maxlen` bytes: on an array of `maxlen`
+non-NUL bytes WITHOUT terminator (only those bytes mapped) it returns `maxlen` -/
+theorem strnlen_unterminated (m : Mem) (s : Nat) (l : List Byte) (h : Holds m s l) (h0 : 0#8 ∉ l) :
+    strnlen m s l.length = some l.length := by
+  simpa [strnlen] using strnlenLoop_long m l s l.length 0 h h0 (Nat.le_refl _)
+
+/-! ### strcpy / strncpy / strlcpy  (ISO: objects must not overlap) -/
+
+theorem strcpy_spec (m : Mem) (dest src : Nat) (l : List Byte) (fuel : Nat) (hs : CStr m src l)
+    (hd : Mapped m dest (l.length + 1)) (hdis : Disjoint dest (l.length + 1) src (l.length + 1))
+    (hf : l.length < fuel) :
+    ∃ m', strcpy m dest src fuel = some (m', dest) ∧ Holds m' dest (l ++ [0#8]) ∧
+      SameOutside m m' dest (l.length + 1) := by
+  obtain ⟨m', e, hh, ho⟩ := strcpyLoop_spec l m dest src fuel hs hd hdis hf
+  exact ⟨m', by simp [strcpy, e], hh, ho⟩
+
+/-- source string shorter than `n`: copied, then NUL-padded to exactly `n` bytes -/
+theorem strncpy_short (m : Mem) (dst src : Nat) (l : List Byte) (n : Nat) (hs : CStr m src l)
+    (hn : l.length < n) (hd : Mapped m dst n) (hdis : Disjoint dst n src (l.length + 1)) :
+    ∃ m', strncpy m dst src n = some (m', dst) ∧
+      Holds m' dst (l ++ List.replicate (n - l.length) 0#8) ∧ SameOutside m m' dst n := by
+  obtain ⟨m', e, hh, ho⟩ := strncpyLoop_short l m dst src n hs hn hd hdis
+  exact ⟨m', by simp [strncpy, e], hh, ho⟩
+
+/-- source array with at least `n` characters before any NUL: exactly `n` are
+copied, no terminator is written, and nothing after the first `n` source
+bytes is read (the source need not be terminated).  `n = 0` is `p = []`. -/
+theorem strncpy_long (m : Mem) (dst src : Nat) (p : List Byte) (hs : Holds m src p) (h0 : 0#8 ∉ p)
+    (hd : Mapped m dst p.length) (hdis : Disjoint dst p.length src p.length) :
+    ∃ m', strncpy m dst src p.length = some (m', dst) ∧ Holds m' dst p ∧
+      SameOutside m m' dst p.length := by
+  obtain ⟨m', e, hh, ho⟩ := strncpyLoop_long p m dst src hs h0 hd hdis
+  exact ⟨m', by simp [strncpy, e], hh, ho⟩
+
+/-- strlcpy with `size > 0`: the first `min(len, size-1)` characters and a
+terminator are stored, the return value is `strlen(src)` — also when the copy
+was truncated (`fix: strlcpy returns strlen(src)`) -/
+theorem strlcpy_spec (m : Mem) (dst src : Nat) (l : List Byte) (size fuel : Nat) (hs : CStr m src l)
+    (hsz : 0 < size) (hd : Mapped m dst (min l.length (size - 1) + 1))
+    (hdis : Disjoint dst (min l.length (size - 1) + 1) src (l.length + 1)) (hf : l.length < fuel) :
+    ∃ m', strlcpy m dst src size fuel = some (m', l.length) ∧
+      Holds m' dst (l.take (size - 1) ++ [0#8]) ∧
+      SameOutside m m' dst (min l.length (size - 1) + 1) := by
+  have hd' : Mapped m dst (min l.length (size - 1)) := fun i hi => hd i (by omega)
+  unfold Disjoint at hdis
+  obtain ⟨m1, e, hh, ho⟩ := strlcpyLoop_spec l m dst src size hs hsz hd' (by unfold Disjoint; omega)
+  have hmap : (m1 (dst + min l.length (size - 1))).isSome := by
+    rw [ho _ (by omega)]; exact hd _ (by omega)
+  have hs1 : CStr m1 src l := cstr_of_sameOutside hs ho (by omega)
+  have hs2 : CStr (upd m1 (dst + min l.length (size - 1)) 0#8) src l :=
+    cstr_upd_outside _ hs1 (by omega)
+  -- the rest of src, from the point where copying stopped
+  have hsplit : l = l.take (min l.length (size - 1)) ++ l.drop (min l.length (size - 1)) := by simp
+  have hs3 : CStr (upd m1 (dst + min l.length (size - 1)) 0#8) (src + min l.length (size - 1))
+      (l.drop (min l.length (size - 1))) := by
+    have := hs2; rw [hsplit] at this
+    have := cstr_suffix this
+    simpa using this
+  have e3 := strlen_eq _ _ _ fuel hs3 (by simp; omega)
+  refine ⟨upd m1 (dst + min l.length (size - 1)) 0#8, ?_, ?_, ?_⟩
+  · simp only [strlcpy, if_neg (Nat.pos_iff_ne_zero.mp hsz), e, bind, Option.bind, wr_upd hmap,
+      BitVec.ofNat_eq_ofNat, e3]
+    simp; omega
+  · rw [holds_append]
+    refine ⟨holds_upd_outside _ hh (by simp; omega), ?_⟩
+    simp [holds_cons, Holds.nil, List.length_take, Nat.min_comm]
+  · intro j hj
+    rw [upd_other _ _ (by omega)]; exact ho j (by omega)
+
+/-- `size == 0`: nothing is written, the result is still `strlen(src)` -/
+theorem strlcpy_size0 (m : Mem) (dst src : Nat) (l : List Byte) (fuel : Nat) (hs : CStr m src l)
+    (hf : l.length < fuel) : strlcpy m dst src 0 fuel = some (m, l.length) := by
+  simp [strlcpy, strlen_eq m l src fuel hs hf]
+
+/-- historical (before the fix): on truncation the unfixed code returns `size - 1` -/
+theorem strlcpyOrig_witness :
+    (strlcpyOrig (ofBufs [(8, [0xA5#8]), (16, [65#8, 66#8, 0#8])]) 8 16 1 10).map (·.2) = some 0 := by
+  decide
+
+/-! ### strcmp / strncmp -/
+
+/-- equal strings ⇒ 0 -/
+theorem strcmp_equal (m : Mem) (s1 s2 : Nat) (l : List Byte) (fuel : Nat) (h1 : CStr m s1 l)
+    (h2 : CStr m s2 l) (hf : l.length < fuel) : strcmp m s1 s2 fuel = some 0 := by
+  have := strcmpLoop_spec id m l l 0#8 0#8 s1 s2 fuel h1.1 h2.1 (forall2_eqF_refl _ _) h1.2 (Or.inl rfl) hf
+  simpa [strcmp] using this
+
+/-- first differing pair after a common prefix (either byte may be the
+terminator, i.e. one string may be a proper prefix of the other) ⇒ the
+difference of the two bytes as `unsigned char`; nothing after it is read -/
+theorem strcmp_first_difference (m : Mem) (s1 s2 : Nat) (p : List Byte) (x y : Byte) (fuel : Nat)
+    (h1 : Holds m s1 (p ++ [x])) (h2 : Holds m s2 (p ++ [y])) (h0 : 0#8 ∉ p) (hxy : x ≠ y)
+    (hf : p.length < fuel) : strcmp m s1 s2 fuel = some (ucInt x - ucInt y) := by
+  have := strcmpLoop_spec id m p p x y s1 s2 fuel h1 h2 (forall2_eqF_refl _ _) h0
+    (Or.inr (fun e => hxy (eqF_id.mp e))) hf
+  simpa [strcmp] using this
+
+/-- `n == 0` ⇒ 0 without any access -/
+theorem strncmp_zero (m : Mem) (s1 s2 : Nat) : strncmp m s1 s2 0 = some 0 := rfl
+
+/-- the first `n` characters agree (none of the first `n-1` is NUL) ⇒ 0, and
+nothing beyond the `n`-th character is read: the arrays need no terminator -/
+theorem strncmp_equal_prefix (m : Mem) (s1 s2 : Nat) (p : List Byte) (x : Byte)
+    (h1 : Holds m s1 (p ++ [x])) (h2 : Holds m s2 (p ++ [x])) (h0 : 0#8 ∉ p) :
+    strncmp m s1 s2 (p.length + 1) = some 0 := by
+  have := strncmpLoop_spec id m p p x x s1 s2 p.length h1 h2 (forall2_eqF_refl _ _) h0 (Or.inl rfl)
+    (Nat.le_refl _)
+  simpa [strncmp] using this
+
+/-- equal strings ⇒ 0 for every `n` -/
+theorem strncmp_equal (m : Mem) (s1 s2 : Nat) (l : List Byte) (n : Nat) (h1 : CStr m s1 l)
+    (h2 : CStr m s2 l) : strncmp m s1 s2 n = some 0 := by
+  cases n with
+  | zero => rfl
+  | succ k =>
+    by_cases hk : l.length ≤ k
+    · have := strncmpLoop_spec id m l l 0#8 0#8 s1 s2 k h1.1 h2.1 (forall2_eqF_refl _ _) h1.2
+        (Or.inr (Or.inl rfl)) hk
+      simpa [strncmp] using this
+    · -- cut by n inside the strings
+      have hk' : k < l.length := by omega
+      have hsplit : l ++ [0#8] = (l.take k ++ [l[k]]) ++ (l.drop (k + 1) ++ [0#8]) := by
+        rw [← List.append_assoc]; congr 1
+        rw [List.append_assoc, List.singleton_append, List.getElem_cons_drop, List.take_append_drop]
+      have g1 := h1.1; have g2 := h2.1
+      rw [hsplit, holds_append] at g1 g2
+      have := strncmpLoop_spec id m (l.take k) (l.take k) l[k] l[k] s1 s2 k g1.1 g2.1
+        (forall2_eqF_refl _ _) (fun e => h1.2 (List.mem_of_mem_take e))
+        (Or.inl (by simp; omega)) (by simp; omega)
+      simpa [strncmp] using this
+
+/-- first differing pair within the first `n` characters -/
+theorem strncmp_first_difference (m : Mem) (s1 s2 : Nat) (p : List Byte) (x y : Byte) (n : Nat)
+    (h1 : Holds m s1 (p ++ [x])) (h2 : Holds m s2 (p ++ [y])) (h0 : 0#8 ∉ p) (hxy : x ≠ y)
+    (hn : p.length < n) : strncmp m s1 s2 n = some (ucInt x - ucInt y) := by
+  have := strncmpLoop_spec id m p p x y s1 s2 (n - 1) h1 h2 (forall2_eqF_refl _ _) h0
+    (Or.inr (Or.inr (fun e => hxy (eqF_id.mp e)))) (by omega)
+  simpa [strncmp, Nat.pos_iff_ne_zero.mp (Nat.zero_lt_of_lt hn)] using this
+
+/-! ### strchrnul / strchr / strrchr   (`c` = `ch` converted to `char`) -/
+
+/-- strchrnul: first occurrence of `c`, else the terminator; `x` is the byte it stops at -/
+theorem strchrnul_spec (m : Mem) (s : Nat) (ch : Int) (p : List Byte) (x : Byte) (fuel : Nat)
+    (h : Holds m s (p ++ [x])) (h0 : 0#8 ∉ p) (hc : toChar ch ∉ p) (hx : x = 0#8 ∨ x = toChar ch)
+    (hf : p.length < fuel) : strchrnul m s ch fuel = some (s + p.length) :=
+  strchrnulLoop_spec m (toChar ch) p x s fuel h h0 hc hx hf
+
+/-- strchr: first occurrence — `l = p ++ c :: r`, `c ∉ p` ⇒ `s + |p|`; only `p ++ [c]` is read -/
+theorem strchr_found (m : Mem) (s : Nat) (ch : Int) (p : List Byte) (fuel : Nat)
+    (h : Holds m s (p ++ [toChar ch])) (h0 : 0#8 ∉ p) (hp : toChar ch ∉ p) (hf : p.length < fuel) :
+    strchr m s ch fuel = some (some (s + p.length)) :=
+  strchr_first m p s ch fuel h h0 hp hf
+
+/-- strchr: `c` does not occur and is not NUL ⇒ NULL -/
+theorem strchr_absent (m : Mem) (s : Nat) (ch : Int) (l : List Byte) (fuel : Nat) (h : CStr m s l)
+    (hc : toChar ch ∉ l) (hz : toChar ch ≠ 0#8) (hf : l.length < fuel) :
+    strchr m s ch fuel = some none :=
+  strchr_none m l s ch fuel h hc hz hf
+
+/-- strchr: the terminator is part of the string — every `ch` whose conversion
+to `char` is 0 (0, 256, -256, …) finds it (`fix: strchr converts ch to char`) -/
+theorem strchr_terminator (m : Mem) (s : Nat) (ch : Int) (l : List Byte) (fuel : Nat) (h : CStr m s l)
+    (hc : toChar ch = 0#8) (hf : l.length < fuel) :
+    strchr m s ch fuel = some (some (s + l.length)) :=
+  strchr_nul m l s ch fuel h hc hf
+
+/-- historical (before the fix): `strchr("a", 256)` is NULL in the unfixed code -/
+theorem strchrOrig_witness : strchrOrig (ofBufs [(8, [97#8, 0#8])]) 8 256 10 = some none := by decide
+
+/-- strrchr: last occurrence — `l = p ++ c :: r`, `c ∉ r` ⇒ `s + |p|` -/
+theorem strrchr_found (m : Mem) (s : Nat) (ch : Int) (p r : List Byte) (fuel : Nat)
+    (h : CStr m s (p ++ toChar ch :: r)) (hr : toChar ch ∉ r)
+    (hf : (p ++ toChar ch :: r).length + 1 < fuel) :
+    strrchr m s ch fuel = some (some (s + p.length)) := by
+  have hz : toChar ch ≠ 0#8 := fun e => h.2 (by rw [← e]; simp)
+  have hz' : ¬ toChar ch = 0 := hz
+  unfold strrchr
+  rw [if_neg hz']
+  exact strrchrLoop_last m p r s ch fuel fuel none h hr hz (by omega) (by simp at hf; omega)
+
+theorem strrchr_absent (m : Mem) (s : Nat) (ch : Int) (l : List Byte) (fuel : Nat) (h : CStr m s l)
+    (hc : toChar ch ∉ l) (hz : toChar ch ≠ 0#8) (hf : l.length < fuel) :
+    strrchr m s ch fuel = some none := by
+  have hz' : ¬ toChar ch = 0 := hz
+  unfold strrchr
+  rw [if_neg hz']
+  exact strrchrLoop_none m l s ch fuel fuel none h hc hz hf (by omega)
+
+theorem strrchr_terminator (m : Mem) (s : Nat) (ch : Int) (l : List Byte) (fuel : Nat) (h : CStr m s l)
+    (hc : toChar ch = 0#8) (hf : l.length < fuel) :
+    strrchr m s ch fuel = some (some (s + l.length)) := by
+  simp [strrchr, hc, strlen_eq m l s fuel h hf]
+
 end Igris.C08
